@@ -133,6 +133,16 @@ macro "opt_leaf" : tactic => `(tactic| first | rfl | (simp only [optsimp] <;> rf
 `if divisor = 0 then nan else …`, which can only be evaluated after the enclosing branch is known) -/
 macro "opt_steps" : tactic => `(tactic| repeat' (first | split_ifs | (simp only [optsimp])))
 
+/-- `ite` congruence for equal conditions, whatever the two `Decidable` instances -/
+theorem ite_congr' {α : Sort _} {c : Prop} {i1 i2 : Decidable c} {x y u v : α}
+    (h₂ : c → x = u) (h₃ : ¬c → y = v) : @ite α c i1 x y = @ite α c i2 u v := by
+  by_cases h : c
+  · rw [if_pos h, if_pos h]; exact h₂ h
+  · rw [if_neg h, if_neg h]; exact h₃ h
+
+/-- descend simultaneously through two parallel `if` trees (linear in the size of the term, unlike `split_ifs`) -/
+macro "opt_tree" : tactic => `(tactic| repeat' (first | rfl | refine ite_congr' (fun _ => ?_) (fun _ => ?_)))
+
 attribute [optsimp] fieldNum_sqrt
 
 /-! ## vectors -/
@@ -237,6 +247,12 @@ theorem lit_pos (n : Int) (d : Nat) (hn : 0 < n) (hd : 0 < d) : (0 : K) < ((mkRa
   have : (0 : ℚ) < mkRat n d := by
     rw [Rat.mkRat_eq_div]; exact div_pos (by exact_mod_cast hn) (by exact_mod_cast hd)
   exact_mod_cast this
+
+theorem neq_false_iff (a b : K) : letI := fieldNum K sq; neq a b = false ↔ a ≠ b := by
+  rw [← Bool.not_eq_true, neq_iff]
+@[optsimp] theorem neq_true_eq (a b : K) : letI := fieldNum K sq; (neq a b = true) = (a = b) := propext (neq_iff a b)
+@[optsimp] theorem neq_false_eq (a b : K) : letI := fieldNum K sq; (neq a b = false) = (a ≠ b) :=
+  propext (neq_false_iff a b)
 
 /-! ## square roots that are divided by -/
 
